@@ -277,6 +277,12 @@ RPOE_FORMS = [('pos', 'std'), ('kw', 'std'), ('pos', 'pos'), ('pos', 'kw'), ('kw
 #   'std': remove omitted when it is the default remover, keyword otherwise
 RWC_FORMS = [('pos', 'pos'), ('pos', 'kw'), ('kw', 'kw'), ('kw2', 'kw2')]
 DEFAULT_FORMS = (5, 0, 0, 0)
+# the logger object the scenario's constructor calls pass (when their call form passes one): 'mock' is a duck-typed
+# object that records every error() call; 'r<LEVEL>' is a real logging.Logger with that level of its own, its own
+# handler and propagate off (NOTSET: it inherits the root's level).  'root' in a case sets the ROOT logger's level for
+# that case (cases that are explicitly about the ambient logging configuration); None leaves the process as it is.
+LOGGERS = ['mock', 'rDEBUG', 'rERROR', 'rCRITICAL', 'rNOTSET']
+ROOT_LEVELS = [None, 'CRITICAL', 'ERROR', 'DEBUG']
 
 
 def forms_of(case):
@@ -538,6 +544,27 @@ class Env:
                 env.logged('L')
 
         self.L = ListLogger()
+
+        class RealHandler(logging.Handler):
+            def emit(self, record):
+                env.logged('L')
+
+        self.real = logging.getLogger('verif_c09.caller_supplied')
+        self.real_saved = (self.real.level, self.real.propagate)
+        self.real.propagate = False
+        self.real_handler = RealHandler()
+        self.real.addHandler(self.real_handler)
+        self.enabled = {'L': True, 'root': True}
+
+        class Sub:
+            """the library namespace with the public classes replaced by subclasses that override nothing"""
+            pass
+
+        sub = Sub()
+        sub.__dict__.update(excutils.__dict__)
+        sub.save_and_reraise_exception = type('save_and_reraise_exception', (excutils.save_and_reraise_exception,), {})
+        sub.exception_filter = type('exception_filter', (excutils.exception_filter,), {})
+        self.Xsub = sub
         self.handler = Handler()
         self.root = logging.getLogger()
         self.root.addHandler(self.handler)
@@ -569,7 +596,7 @@ class Env:
         self.delegating = delegating_remove
         self.twins = {}
 
-        def make_filters(E, specs, how='decorator'):
+        def make_filters(E, specs, how='decorator', excutils=excutils):
             """(FILT, OBJ) for the filter operations of one scenario, in rendering order.  All instance-method
             filters of the scenario live on ONE class (an instance per distinct table, and a decoy instance with
             the opposite table whose filter is looked up and used first); all classmethod filters on subclasses
@@ -689,6 +716,9 @@ class Env:
     def __exit__(self, *a):
         traceback.format_exception = self.saved_fmt
         self.root.removeHandler(self.handler)
+        self.real.removeHandler(self.real_handler)
+        self.real.setLevel(self.real_saved[0])
+        self.real.propagate = self.real_saved[1]
         shutil.rmtree(self.dir, ignore_errors=True)
 
     def logged(self, sink):
@@ -839,6 +869,26 @@ class View:
         return self.who(c)
 
 
+def expected_from_model(rep, case, enabled):
+    """The model says on which logger object error() is called (@S: the one the scenario's contexts report to,
+    @I: the library's internal default one).  Name the physical logger and keep the calls whose logger is enabled
+    for ERROR - what a handler on that logger sees."""
+    head, sep, rest = rep.partition(' log=')
+    if not sep:
+        return rep
+    logs, _, tail = rest.partition(' ')
+    if logs == '-':
+        return rep
+    scen = 'root' if SRE_FORMS[forms_of(case)[0]][1] == 'omit' else 'L'
+    kept = []
+    for e in logs.split(';'):
+        body, _, tag = e.rpartition('@')
+        phys = scen if tag == 'S' else 'root'
+        if enabled[phys]:
+            kept.append('%s@%s' % (body, phys))
+    return '%s log=%s %s' % (head, ';'.join(kept) or '-', tail)
+
+
 def run_impl(env, case, spy=None):
     """Run one case on the real code; returns the canonical line (same format as the driver)."""
     body = case['body']
@@ -850,24 +900,41 @@ def run_impl(env, case, spy=None):
     if uses_path:
         env.set_path(case['path'])
     env.log, env.sinks, env.pending = [], [], None
-    FILT, OBJ = env.make_filters(E, r.filt, FILTER_FORMS[forms[1]]) if r.filt else ([], [])
+    X = env.Xsub if case.get('sub') else env.X
+    FILT, OBJ = env.make_filters(E, r.filt, FILTER_FORMS[forms[1]], X) if r.filt else ([], [])
+    lg = case.get('lg') or 'mock'
+    L = env.L
+    root_saved = None
+    if case.get('root'):
+        root_saved = env.root.level
+        env.root.setLevel(getattr(logging, case['root']))
+    if lg != 'mock':
+        L = env.real
+        L.setLevel(getattr(logging, lg[1:]))
+    # whether a record comes out of a logger is that logger's business: isEnabledFor(ERROR), now
+    env.enabled = {'L': True if lg == 'mock' else L.isEnabledFor(logging.ERROR),
+                   'root': env.root.isEnabledFor(logging.ERROR)}
     RMS = {'n': env.noop, 'w': env.delegating, 'd': env.FU.delete_if_exists}
     for k in range(len(E)):
         RMS[k] = env.make_remove(E, k)
     OUT = []
     if spy is not None:
         spy.bind(env, view, r.filt)
-    ex = _invoke(r.fn, (E, env.L, env.X, env.FU, FILT, OBJ, env.path, RMS, env.CAUSED, spy, bool(case['flag']), OUT))
+    try:
+        ex = _invoke(r.fn, (E, L, X, env.FU, FILT, OBJ, env.path, RMS, env.CAUSED, spy, bool(case['flag']), OUT))
+    finally:
+        if root_saved is not None:
+            env.root.setLevel(root_saved)
     if ex is None:
         out = 'out=ok tb=- cause=-'
     else:
         out = 'out=R:%s tb=%s cause=%s' % (view.who(ex), view.tb(ex.__traceback__, True), view.cause(ex))
     log = []
-    for a in env.log:
+    for a, sink in zip(env.log, env.sinks):
         if a is None or len(a) != 3:
-            log.append('?/' + repr(a)[:40])
+            log.append('?/%s@%s' % (repr(a)[:40], sink))
         else:
-            log.append('%s/%s' % (view.who(a[1]), view.tb(a[2])))
+            log.append('%s/%s@%s' % (view.who(a[1]), view.tb(a[2]), sink))
     path = env.path_kind() if uses_path else case['path']
     if OUT:
         c0 = OUT[0]
@@ -1007,8 +1074,28 @@ def random_body(rng, budget, depth=0, entered=False):
     return seq_of(items)
 
 
+LOGGING_BODIES = [['h', 0, ['nest', 1, ['rn', 1]]], ['h', 0, ['nest', 0, ['rn', 1]]],
+                  ['h', 0, ['nest', 1, ['seq', ['sr', 0], ['rn', 1]]]], ['h', 0, ['nest', 0, ['seq', ['sr', 1], ['rn', 1]]]],
+                  ['rp', 'r1', ['rn', 0]], ['rp', 'd', ['rn', 0]], ['h', 0, ['ec', ['rn', 1]]],
+                  ['h', 0, ['nest', 1, ['h', 1, ['nest', 1, ['rn', 2]]]]], ['h', 0, ['nest', 1, ['rp', 'r2', ['rn', 1]]]],
+                  ['h', 0, ['nest', 1, ['nop']]]]
+
+
+def logging_cases(rng):
+    """caller-supplied logger (mock / real with its own level) x level of the root logger x how the logger is passed:
+    the real logger's level differs from the root's in both directions"""
+    for lg in LOGGERS:
+        for root in ROOT_LEVELS:
+            for cf in (0, 3, 5, 7):
+                for body in LOGGING_BODIES:
+                    for flag in (0, 1):
+                        yield {'flag': flag, 'kinds': ['plain', 'args', 'plain'], 'path': 'dir' if body[1] == 'd' else 'file',
+                               'forms': [cf, 0, 0, 0], 'lg': lg, 'root': root, 'body': body}
+
+
 def gen_cases(ctx):
     rng = ctx.rng
+    amb = getattr(ctx, 'ambient', None)       # a child of the ambient sweep: about a third of the budget
     n = 3 if ctx.quick else 4
     # 1. context-manager form: try: raise E[0] / except: with sre(reraise=b) as c: BODY
     # 2. direct-call form: c0 = sre(reraise=flag); BODY
@@ -1016,13 +1103,15 @@ def gen_cases(ctx):
         if m <= 2:
             kind_sets = [[k, k, 'plain'] for k in KINDS]
         elif m == 3:
-            kind_sets = [[k, k, 'plain'] for k in ('plain', 'args', 'chained', 'base', 'ctx')]
+            kind_sets = [[k, k, 'plain'] for k in (('plain',) if amb else ('plain', 'args', 'chained'))]
         else:
             kind_sets = [['plain', 'args', 'plain'], ['args', 'plain', 'plain']]
-        for s in seqs(m):
+        for si, s in enumerate(seqs(m)):
+            if amb and m == 3 and si % 3 != ctx.seed % 3:
+                continue                    # a third of the three-operation bodies in a child of the sweep
             body = seq_of(s)
             extra = ([rng.choice(KINDS), rng.choice(KINDS), 'plain'] if m > 3 else
-                     [rng.choice(['prior'] + KINDS_EXIT)] * 2 + ['plain'] if m == 3 else None)
+                     [rng.choice(['prior', 'base', 'ctx'] + KINDS_EXIT)] * 2 + ['plain'] if m == 3 else None)
             for kinds in kind_sets + ([extra] if extra else []):
                 for b in (0, 1):
                     yield {'flag': 1, 'kinds': kinds, 'path': 'file',
@@ -1084,7 +1173,7 @@ def gen_cases(ctx):
                 yield {'flag': 1, 'kinds': [kind, kind, 'plain'], 'path': 'file', 'body': w(['rwc', x])}, 'rwc'
     # 4. operations on the context after its `with` block ended normally (flag off at exit): inside the
     #    `except` clause (h 0 (nt …)) and after it (hnt 0 …)
-    for m in range(0, 3 if ctx.quick else 4):
+    for m in range(0, (2 if amb else 3) if ctx.quick else 4):
         for sq in seqs(m):
             body = seq_of(sq)
             kind_sets = [[k, k, 'plain'] for k in KINDS] if m <= 1 else [[rng.choice(KINDS), rng.choice(KINDS), 'plain']]
@@ -1115,7 +1204,7 @@ def gen_cases(ctx):
     for flag in (0, 1):
         for b1 in ones:
             for b2 in ones + [['sr', 1], ['seq', ['sr', 1], ['rn', 1]]]:
-                for between in REUSE_BETWEEN:
+                for between in (REUSE_BETWEEN[:2] if amb else REUSE_BETWEEN):
                     kind_sets = [['plain', 'plain', 'plain'], ['args', 'kbdargs', 'plain']]
                     if between is None:
                         kind_sets += [[rng.choice(KINDS), rng.choice(KINDS), 'plain']]
@@ -1136,7 +1225,7 @@ def gen_cases(ctx):
                'body': seq_of([['sw', uses[0]], ['sw', uses[1]], uses[2]])}, 'reuse/three'
     # 7. every legal call form of the pinned signatures, for the same logical arguments
     for cf in range(len(SRE_FORMS)):
-        for body in bodies_upto(2 if ctx.quick else 3):
+        for body in bodies_upto((1 if amb else 2) if ctx.quick else 3):
             for b in (0, 1):
                 kinds = [rng.choice(KINDS_CORE), rng.choice(KINDS_CORE), 'plain']
                 yield {'flag': 1, 'kinds': kinds, 'path': 'file', 'forms': [cf, 0, 0, 0],
@@ -1167,11 +1256,24 @@ def gen_cases(ctx):
             for w in wrappers:
                 yield {'flag': 1, 'kinds': ['plain', 'plain', 'plain'], 'path': 'file', 'forms': [5, 0, 0, wf],
                        'body': w(['rwc', x])}, 'call-form/rwc'
-    # 8. random bodies over the whole grammar (random call forms)
-    for _ in range(4000 if ctx.quick else 150000):
+    # 8. the logger object the caller passed and the ambient logging configuration; subclasses of the public classes
+    for case in logging_cases(rng):
+        yield case, 'logger-level'
+    for body in bodies_upto(1 if amb else 2):
+        for b in (0, 1):
+            yield {'flag': b, 'kinds': ['plain', 'args', 'plain'], 'path': 'file', 'sub': 1,
+                   'body': ['h', 0, ['nest', b, body]]}, 'subclass'
+    for form, (acc, rais), k in itertools.product(FORMS, PREDS[:5], (0, 1)):
+        yield {'flag': 1, 'kinds': ['plain', 'plain', 'plain'], 'path': 'file', 'sub': 1,
+               'body': ['fx', form, acc, rais, ['rn', k]]}, 'subclass'
+        yield {'flag': 1, 'kinds': ['plain', 'plain', 'plain'], 'path': 'file', 'sub': 1,
+               'body': ['h', k, ['fc', form, acc, rais, k]]}, 'subclass'
+    # 9. random bodies over the whole grammar (random call forms, loggers, root levels)
+    for _ in range((1500 if amb else 4000) if ctx.quick else 150000):
         body = random_body(rng, rng.randrange(1, 10))
         yield {'flag': rng.randrange(2), 'kinds': [rng.choice(KINDS) for _ in range(3)],
-               'path': rng.choice(PATHS), 'body': body,
+               'path': rng.choice(PATHS), 'body': body, 'lg': rng.choice(LOGGERS),
+               'root': rng.choice(ROOT_LEVELS) if rng.random() < 0.4 else None, 'sub': int(rng.random() < 0.2),
                'forms': [rng.randrange(len(SRE_FORMS)), rng.randrange(len(FILTER_FORMS)),
                          rng.randrange(len(RPOE_FORMS)), rng.randrange(len(RWC_FORMS))]}, 'random'
 
@@ -1193,9 +1295,11 @@ def correspondence(ctx):
                     continue
                 ctx.count('out/' + impl.split(' ')[0][4:].replace('R:', ''))
                 if has_helper(case['body']) and any(t != '-' for t in impl.rsplit('tbs=', 1)[1].split(' ')[0].split('|')):
-                    ctx.nontrivial((case['flag'], tuple(case['kinds']), case['path'], ser(case['body']), forms_of(case)))
+                    ctx.nontrivial((case['flag'], tuple(case['kinds']), case['path'], ser(case['body']), forms_of(case),
+                                    case.get('lg'), case.get('root'), case.get('sub')))
                 if tag == 'random' or ctx.evaluations % 5000 == 1:
                     ctx.sample({'case': case, 'implementation': impl}, 6)
+                rep = expected_from_model(rep, case, env.enabled)
                 if impl != rep:
                     out.append(Disagreement(case, impl, rep))
             del batch[:]
@@ -1375,15 +1479,19 @@ class Spy:
             lost = self.chain_lost(r.get('inchain'), out)
             if lost:
                 return self.fail('body-exception-chain-changed', '%s: %s' % (w(out), lost), klass)
-            if dlog != (1 if flag else 0):
+            due = 1 if flag else 0
+            # the record is seen iff the context's own logger is enabled for ERROR (its level, not the root's)
+            seen = due if self.env.enabled.get(r.get('sink') or 'L', True) else 0
+            if dlog != seen:
                 return self.fail('original-logged-%d-times-flag-%s' % (dlog, bool(flag)),
-                                 'body raised %s with reraise=%r: original logged %d time(s)' % (w(val), flag, dlog),
-                                 klass)
-            if flag and r['forced'] == 0:
+                                 'body raised %s with reraise=%r: original logged %d time(s) on its logger (%s, enabled '
+                                 'for ERROR: %s)' % (w(val), flag, dlog, r.get('sink'),
+                                                     self.env.enabled.get(r.get('sink') or 'L', True)), klass)
+            if seen and r['forced'] == 0:
                 a = self.env.log[-1]
                 if a is None or len(a) != 3 or a[1] is not orig:
                     return self.fail('logged-not-the-original', 'logged %r, original %s' % (a, w(orig)), klass)
-            if flag and r.get('sink') and self.env.sinks[-1] != r['sink']:
+            if seen and r.get('sink') and self.env.sinks[-1] != r['sink']:
                 return self.fail('logged-to-the-wrong-logger', 'the dropped original went to %s, the context was '
                                  'given %s' % (self.env.sinks[-1], r['sink']), klass)
             return
@@ -1526,8 +1634,12 @@ class Spy:
                 ok = (out is want) if raising else (isinstance(out, OSError) and self.view.index(out) is None)
                 if not ok:
                     self.fail('rpoe-remove-failure-lost', 'remove failed but %s came out' % w(out))
-                elif dlog != 1 or self.env.log[-1] is None or self.env.log[-1][1] is not val:
+                elif self.env.enabled['root'] and (dlog != 1 or self.env.log[-1] is None or
+                                                   self.env.log[-1][1] is not val):
+                    # (the internal context reports to the default logger: the root)
                     self.fail('rpoe-original-not-logged', 'remove failed; original logged %d time(s)' % dlog)
+                elif not self.env.enabled['root'] and dlog:
+                    self.fail('rpoe-logged-although-disabled', 'root logger not enabled for ERROR, %d record(s)' % dlog)
                 return
             if out is not val:
                 return self.fail('rpoe-not-reraised', 'body raised %s, %s came out' % (w(val), w(out)))
@@ -1542,7 +1654,7 @@ class Spy:
                                  'the error' % (path0, twin, path1))
             if rm not in ('d', 'w') and path1 != path0:
                 return self.fail('rpoe-path-changed', 'custom remove: path %s -> %s' % (path0, path1))
-            if dlog != (1 if rm.startswith('r') else 0):
+            if dlog != (1 if rm.startswith('r') and self.env.enabled['root'] else 0):
                 return self.fail('rpoe-logged', 'log +%d' % dlog)
         return _Probe(None, exit)
 
@@ -1695,17 +1807,25 @@ def search(ctx, seeds, full=False):
     rng = ctx.rng
     fails, seen = [], set()
     n = (30000 if full else 4000) if ctx.quick else (300000 if full else 50000)
+    if getattr(ctx, 'ambient', None):
+        n //= 3
 
     def candidates():
         for s in seeds[:300]:
             yield s
         # the small bodies in both forms first (cheap, and where a broken helper shows at once)
-        for body in bodies_upto(2 if not full else 3):
+        for body in bodies_upto((2 if not full else 3) if not getattr(ctx, 'ambient', None) else 2):
             for b in (0, 1):
                 for kinds in (['plain', 'plain', 'plain'], ['args', 'base', 'plain'], ['chained', 'ctx', 'plain'],
                               ['ctx', 'chained', 'plain']):
                     yield {'flag': 1, 'kinds': kinds, 'path': 'file', 'body': ['h', 0, ['nest', b, body]]}
                     yield {'flag': b, 'kinds': kinds, 'path': 'file', 'body': body}
+        for case in logging_cases(rng):
+            yield case
+        for body in bodies_upto(1):
+            for b in (0, 1):
+                yield {'flag': b, 'kinds': ['plain', 'args', 'plain'], 'path': 'file', 'sub': 1,
+                       'body': ['h', 0, ['nest', b, body]]}
         for cf in range(len(SRE_FORMS)):
             for body in bodies_upto(1):
                 for b in (0, 1):
@@ -1777,7 +1897,8 @@ def search(ctx, seeds, full=False):
         for _ in range(n):
             yield {'flag': rng.randrange(2), 'kinds': [rng.choice(KINDS) for _ in range(3)],
                    'path': rng.choice(PATHS),
-                   'body': random_body(rng, rng.randrange(1, 9)),
+                   'body': random_body(rng, rng.randrange(1, 9)), 'lg': rng.choice(LOGGERS),
+                   'root': rng.choice(ROOT_LEVELS) if rng.random() < 0.4 else None, 'sub': int(rng.random() < 0.2),
                    'forms': [rng.randrange(len(SRE_FORMS)), rng.randrange(len(FILTER_FORMS)),
                              rng.randrange(len(RPOE_FORMS)), rng.randrange(len(RWC_FORMS))]}
 
@@ -1860,10 +1981,12 @@ def replay(ctx, payload):
         print('property oracle on the implementation:', why)
         return 1 if why else 0
     print(render(case['body'], False, forms_of(case)).src)
-    print('flag=%s kinds=%s path=%s forms=%s' % (case['flag'], case['kinds'], case['path'], forms_of(case)))
+    print('flag=%s kinds=%s path=%s forms=%s logger=%s root-level=%s subclasses=%s'
+          % (case['flag'], case['kinds'], case['path'], forms_of(case), case.get('lg') or 'mock',
+             case.get('root') or '(as the process has it)', bool(case.get('sub'))))
     with Env() as env:
         print('implementation:', run_impl(env, case))
-        print('model         :', ctx.driver.ask(case_line(case)))
+        print('model         :', expected_from_model(ctx.driver.ask(case_line(case)), case, env.enabled))
         why = oracle(env, case)
     print('property oracle on the implementation:', why)
     if why and why['class'] == N1 and in_class_N1(case['body']):
